@@ -19,6 +19,7 @@ import DSymVerif.Proofs.SimplifySteps
 import DSymVerif.Proofs.SimplifySkeleton
 import DSymVerif.Proofs.SimplifyManifold
 import DSymVerif.Proofs.SimplifyOriented
+import DSymVerif.Proofs.SimplifySplit
 import DSymVerif.Proofs.FundGroupInnerFaces
 
 namespace DSymVerif.C16
@@ -568,6 +569,221 @@ theorem simplify_step_preserves_oriented_manifold {ds s : DSetData} (hm : OM ds)
    fun h hnd => fixLocal1Vertex_OM hm hnd h,
    fun h hnd => fixLocal2Vertex_OM hm hnd h⟩
 
+
+/-! ### split_and_glue as a function of an explicit choice
+
+`network_cut` picks `start` with `find` over a `HashSet` (per-instance random iteration order), so
+`Simp.networkCut` / `Simp.splitAndGlue` take the iteration order `iter` as an argument.  All six
+helpers (`network_edges`, `cut_with_insides`, `network_cut`, `cut_pairs_in_order`, `make_key`,
+`split_and_glue_attempt`) are compared with the real code through hooks on every run; the
+theorems below are therefore about tied code. -/
+
+/-- ○ **`network_edges` is the tile skeleton plus the two stars**: a pair belongs to the network iff
+    it is a skeleton edge, or joins the source to the vertex of a chamber of the face of `d` (in edge
+    mode also of the face of `s2 d`), or joins the vertex of a chamber of the face of `s3 d` to the
+    sink. -/
+theorem network_edges_is_skeleton_plus_stars {ds : DSetData} (hv : ValidSet ds) (hdim : ds.dim = 3)
+    {d : Nat} (hd1 : 1 ≤ d) (hd2 : d ≤ ds.size) (mode : Bool) {e2i : Array Nat} (hsz : e2i.size = ds.size + 1)
+    (edges : List (Nat × Nat)) (source sink : Nat) :
+    ∃ net, networkEdges ds d mode e2i edges source sink = .ok net ∧
+      ∀ p, p ∈ net ↔ (p ∈ edges ∨
+        (p.1 = source ∧ ∃ x, (ds.viewPartial.Reach [0, 1] d x ∨
+            (mode = true ∧ ds.viewPartial.Reach [0, 1] (ds.opU 2 d) x)) ∧ p.2 = e2i.getD x 0) ∨
+        (p.2 = sink ∧ ∃ x, ds.viewPartial.Reach [0, 1] (ds.opU 3 d) x ∧ p.1 = e2i.getD x 0)) :=
+  networkEdges_spec hv hdim hd1 hd2 mode hsz edges source sink
+
+example : ValidSet exNc ∧ exNc.dim = 3 := ⟨exNc_valid, rfl⟩
+
+/-- ○ **The order in which the two `HashSet`s of `network_edges` are listed does not matter**:
+    `min_vertex_cut_undirected` returns the same cut, inside set and flow for any two edge lists
+    with the same members (it collects them into a `BTreeSet`). -/
+theorem network_cut_independent_of_star_order {net net' : List (Nat × Nat)} (h : ∀ e, e ∈ net ↔ e ∈ net')
+    (source sink : Nat) :
+    Cut.minVertexCutUndirected net source sink = Cut.minVertexCutUndirected net' source sink :=
+  minVertexCutUndirected_ext h source sink
+
+example : Cut.minVertexCutUndirected [(0, 1), (1, 2), (3, 0), (2, 4)] 3 4 =
+    Cut.minVertexCutUndirected [(2, 4), (0, 1), (3, 0), (1, 2), (0, 1)] 3 4 :=
+  network_cut_independent_of_star_order (fun e => by
+    simp only [List.mem_cons, List.not_mem_nil, or_false]
+    constructor
+    · rintro (h | h | h | h) <;> simp [h]
+    · rintro (h | h | h | h | h) <;> simp [h]) 3 4
+
+open DSymVerif.Cut DSymVerif.SpecC19 DSymVerif.CutP in
+/-- ○ **What `network_cut` marks.**  On a complete 3-dimensional D-set on which s0 and s2 commute, if
+    the deterministic part of `network_cut(ds, d, mode)` returns, then: `make_skeleton` and
+    `network_edges` return; for EVERY listing `net` of the network (whatever the `HashSet`s do)
+    `min_vertex_cut_undirected` returns one and the same `r`; `r.cut` is a minimum vertex cut between
+    source and sink and `r.inside` what stays reachable from the source; `marked` is the union of the
+    (1,2)-orbits (tile vertices) of the chambers of the face of `d`, of `reps[v]` for the cut vertices
+    `v` and of `reps[v]` for the inside vertices `v` of the skeleton; `special` is the face of `s3 d`. -/
+theorem network_cut_marks_minimum_cut {ds : DSetData} (hv : ValidSet ds) (hdim : ds.dim = 3)
+    (hc02 : ∀ x, 1 ≤ x → x ≤ ds.size → ds.opU 2 (ds.opU 0 x) = ds.opU 0 (ds.opU 2 x))
+    {d : Nat} (hd1 : 1 ≤ d) (hd2 : d ≤ ds.size) (mode : Bool) {pre : CutPre}
+    (h : networkCutPre ds d mode = .ok pre) :
+    ∃ e2i reps edges net0 r cutReps insideReps,
+      makeSkeleton ds = .ok (e2i, reps, edges) ∧
+      networkEdges ds d mode e2i edges (skelSource e2i) (skelSource e2i + 1) = .ok net0 ∧
+      (∀ net, (∀ p, p ∈ net ↔ p ∈ net0) →
+        minVertexCutUndirected net (skelSource e2i) (skelSource e2i + 1) = .ok r) ∧
+      (∀ p, IsWalk (sym net0) (skelSource e2i) (skelSource e2i + 1) p → ∃ x ∈ internal p, x ∈ r.cut) ∧
+      (∀ C : List Nat, skelSource e2i ∉ C → skelSource e2i + 1 ∉ C →
+        (∀ p, IsWalk (sym net0) (skelSource e2i) (skelSource e2i + 1) p → ∃ x ∈ p, x ∈ C) →
+        r.cut.length ≤ C.length) ∧
+      (∀ v, (v = skelSource e2i ∨ v ∈ r.inside) ↔
+        ∃ p, IsWalk (removeVertices (sym net0) r.cut) (skelSource e2i) v p) ∧
+      mapIdx reps.toArray r.cut = .ok cutReps ∧
+      mapIdx reps.toArray (r.inside.filter (· < reps.length)) = .ok insideReps ∧
+      pre.marked = (ds.viewPartial.orbit [0, 1] d ++ cutReps ++ insideReps).flatMap
+        (fun e => ds.viewPartial.orbit [1, 2] e) ∧
+      pre.special = ds.viewPartial.orbit [0, 1] (ds.opU 3 d) := by
+  obtain ⟨e2i, reps, edges, net0, r, cutReps, insideReps, d3, hsk, hnet, hcut, hcr, hir, hd3, hm, hs⟩ :=
+    networkCutPre_ok h
+  obtain ⟨r', hr', w1, w2, _, _, _, w6⟩ :=
+    network_cut_minimum hv hdim hc02 hd1 hd2 mode hsk hnet (net := net0) (fun _ => Iff.rfl)
+  have hrr : r' = r := by
+    rw [hcut] at hr'
+    exact (Outcome.ok.inj hr').symm
+  subst hrr
+  have hd3' : d3 = ds.opU 3 d := (opx_ok hd3).2.2.2.1.symm
+  refine ⟨e2i, reps, edges, net0, r', cutReps, insideReps, hsk, hnet, ?_, w1, w2, w6, hcr, hir, hm, hd3' ▸ hs⟩
+  intro net hperm
+  rw [minVertexCutUndirected_ext hperm]; exact hcut
+
+/-- on `exNc` the deterministic part of `network_cut(exNc, 1, false)` returns -/
+example : (networkCutPre exNc 1 false).isOk = true := by decide +kernel
+
+/-- ○ **What the result of `network_cut` depends on.**  For every iteration order `iter` of the
+    `HashSet` `marked`: a returned list is `cut_pairs_in_order` started from a member `start` of that
+    order that is marked while its 0-neighbour is not (an *admissible start*) — the choice of `start`
+    among the admissible ones is all that `iter` contributes. -/
+theorem network_cut_result_from_admissible_start {ds : DSetData} {d : Nat} {mode : Bool}
+    {iter : List Nat → List Nat} {r : List (Nat × Nat)} (h : networkCut ds d mode iter = .ok (some r)) :
+    ∃ pre start, networkCutPre ds d mode = .ok pre ∧ start ∈ iter pre.marked ∧
+      (∃ e0, ds.opPartial 0 start = some e0 ∧ memFn ds.size pre.marked e0 = false) ∧
+      cutPairsInOrder ds start (memFn ds.size pre.marked) (memFn ds.size pre.special) = .ok r :=
+  networkCut_some h
+
+example : ∃ r, networkCut exNc 1 false (ascending 1 false) = .ok (some r) := by
+  have h : (match networkCut exNc 1 false (ascending 1 false) with | .ok (some _) => true | _ => false) = true := by
+    decide +kernel
+  cases hx : networkCut exNc 1 false (ascending 1 false) with
+  | ok o => cases o with
+    | some r => exact ⟨r, rfl⟩
+    | none => rw [hx] at h; cases h
+  | err => rw [hx] at h; cases h
+  | panic => rw [hx] at h; cases h
+
+/-- ○ **`cut_pairs_in_order`: two starts on one closed chain of rounds give rotations of one
+    list.**  `CPChain step a l b`: starting at chamber `a`, the rounds of the outer loop visit the
+    chambers listed in `l` (each with the pairs it pushes) and arrive at `b`.  If the rounds started
+    at `a` visit the pairwise distinct chambers `l1 ++ p :: l2`, come back to `a` and push at most
+    `size` pairs in all, then started at the chamber of `p` the function returns the pairs of the
+    rounds `p :: l2 ++ l1` — the list returned for `a` (`l1 = []`) rotated.  (The real walk has two
+    such chains per closed curve, one per direction: `s2` maps the admissible starts of one to those
+    of the other, and the two lists are mirror images — `mirrorPairs` — of one another, observed on
+    every explored input (tag `rot-classes=2 curves=1`), not proved.) -/
+theorem cut_pairs_in_order_rotation {ds : DSetData} {marked special : Nat → Bool} {a : Nat}
+    {l1 l2 : List (Nat × List (Nat × Nat))} {p : Nat × List (Nat × Nat)}
+    (hchain : CPChain (cpStep ds marked special) a (l1 ++ p :: l2) a)
+    (hnd : ((l1 ++ p :: l2).map (·.1)).Nodup)
+    (hlen : ((l1 ++ p :: l2).flatMap (·.2)).length ≤ ds.size) :
+    cutPairsInOrder ds a marked special = .ok ((l1 ++ p :: l2).flatMap (·.2)) ∧
+    cutPairsInOrder ds p.1 marked special = .ok ((p :: l2 ++ l1).flatMap (·.2)) := by
+  refine ⟨?_, cutPairs_rotation hchain hnd hlen⟩
+  cases l1 with
+  | nil =>
+    have hp : p.1 = a := CPChain.head_eq hchain
+    have := cutPairs_rotation (l1 := []) hchain hnd hlen
+    rw [hp] at this
+    simpa using this
+  | cons q l1' =>
+    have hq : q.1 = a := CPChain.head_eq hchain
+    have := cutPairs_rotation (l1 := []) (p := q) (l2 := l1' ++ p :: l2) (by simpa using hchain)
+      (by simpa using hnd) (by simpa using hlen)
+    rw [hq] at this
+    simpa using this
+
+/-- in `network_cut(exNc, 1, false)` the rounds started at chamber 11 visit 11, 35, 45, 13 and push
+    one pair each; started at 45 the function returns the same four pairs rotated by two -/
+example :
+    cutPairsInOrder exNc 11 (memFn 48 exNcMarked) (memFn 48 exNcSpecial) = .ok [(11, 48), (35, 36), (45, 12), (13, 34)] ∧
+    cutPairsInOrder exNc 45 (memFn 48 exNcMarked) (memFn 48 exNcSpecial) = .ok [(45, 12), (13, 34), (11, 48), (35, 36)] :=
+  cut_pairs_in_order_rotation (ds := exNc) (a := 11)
+    (l1 := [(11, [(11, 48)]), (35, [(35, 36)])]) (p := (45, [(45, 12)])) (l2 := [(13, [(13, 34)])])
+    (chainB_sound (by decide +kernel)) (by decide) (by decide)
+
+/-- ○ **`make_key` is the stated triple** (cut length − length of the glue face, cut length, number
+    of pairs that cut across a face) whenever the glue face is a closed (0,1)-orbit -/
+theorem make_key_is_triple {ds : DSetData} {d g : Nat} (ordered : List (Nat × Nat))
+    (h : ds.viewPartial.r 0 1 d = .ok (some g)) :
+    makeKey ds d ordered =
+      .ok ((ordered.length : Int) - (g : Int), ordered.length, (ordered.filter (notAlongEdge ds)).length) :=
+  makeKey_eq ordered h
+
+example : ValidSet exNc ∧ exNc.viewPartial.r 0 1 1 = .ok (some 4) ∧
+    makeKey exNc 1 [(11, 48), (35, 36), (45, 12), (13, 34)] = .ok (0, 4, 0) :=
+  ⟨exNc_valid, by decide +kernel, by decide +kernel⟩
+
+/-- ○ **`make_key` does not see the choice of `start`**: it is the same for a list of pairs and any
+    rotation of it, and — on a complete D-set with involutive operations — for its mirror image
+    (reversed, every pair swapped).  Hence the order of `cuts` after `cuts.sort()` (keys first, then the
+    glue chamber, which is different for different entries with equal keys) is the same for all
+    choices whose results differ by rotations and reflections. -/
+theorem make_key_invariant {ds : DSetData} (d : Nat) (l1 l2 : List (Nat × Nat)) :
+    makeKey ds d (l2 ++ l1) = makeKey ds d (l1 ++ l2) ∧
+    (ValidSet ds → 1 ≤ ds.dim → makeKey ds d (mirrorPairs (l1 ++ l2)) = makeKey ds d (l1 ++ l2)) :=
+  ⟨makeKey_perm List.perm_append_comm, fun hv hdim => makeKey_mirror hv hdim d _⟩
+
+example : makeKey exNc 1 [(45, 12), (13, 34), (11, 48), (35, 36)] = makeKey exNc 1 [(11, 48), (35, 36), (45, 12), (13, 34)] ∧
+    makeKey exNc 1 [(34, 13), (12, 45), (36, 35), (48, 11)] = makeKey exNc 1 [(11, 48), (35, 36), (45, 12), (13, 34)] :=
+  ⟨(make_key_invariant 1 [(11, 48), (35, 36)] [(45, 12), (13, 34)]).1,
+   (make_key_invariant 1 [(11, 48), (35, 36)] [(45, 12), (13, 34)]).2 exNc_valid (by decide)⟩
+
+/-- ○ **`split_and_glue_attempt` keeps the D-set axioms**: for a glue chamber and pairs of chambers,
+    a D-set returned from a complete 3-dimensional D-set with commuting far operations is one again
+    (each `cut_face` keeps them; the chambers pushed to `cut_chambers` are 0-adjacent in pairs — by the
+    walk test or by construction of `cut_face`, and later face cuts do not touch operation 0 of old
+    chambers —, which is what `cut_tile` needs; `collapse` removes a (0,1,3)-orbit with connector 3). -/
+theorem split_and_glue_attempt_preserves_axioms {ds s : DSetData} (hax : Axioms3 ds)
+    {glue : Nat} (hg1 : 1 ≤ glue) (hg2 : glue ≤ ds.size) {ordered : List (Nat × Nat)}
+    (hr : ∀ p ∈ ordered, (1 ≤ p.1 ∧ p.1 ≤ ds.size) ∧ (1 ≤ p.2 ∧ p.2 ≤ ds.size))
+    (h : splitAndGlueAttempt ds glue ordered = .ok (some (.dset s))) : Axioms3 s :=
+  (splitAndGlueAttempt_inv hax.1 hax.2.1 hg1 hg2 hr h).1 hax.2.2
+
+/-- ○ **`split_and_glue_attempt` keeps the manifold clauses** (also looplessness and differing far
+    operations) -/
+theorem split_and_glue_attempt_preserves_manifold {ds s : DSetData} (hm : Manifold3 ds)
+    {glue : Nat} (hg1 : 1 ≤ glue) (hg2 : glue ≤ ds.size) {ordered : List (Nat × Nat)}
+    (hr : ∀ p ∈ ordered, (1 ≤ p.1 ∧ p.1 ≤ ds.size) ∧ (1 ≤ p.2 ∧ p.2 ≤ ds.size))
+    (h : splitAndGlueAttempt ds glue ordered = .ok (some (.dset s))) : Manifold3 s :=
+  (splitAndGlueAttempt_inv hm.1.1 hm.1.2.1 hg1 hg2 hr h).2 hm
+
+/-- on `ex8` the attempt with glue chamber 8 and the single pair (8, 5) — not joined by an edge, so
+    `cut_face`, then `cut_tile`, then `collapse` run — returns a D-set (with 4 chambers) -/
+example : Manifold3 ex8 ∧ ∃ s, splitAndGlueAttempt ex8 8 [(8, 5)] = .ok (some (.dset s)) :=
+  ⟨manifold3B_sound (by decide +kernel), returnsDSet_exists (by decide +kernel)⟩
+
+/-- ○ **`split_and_glue` keeps the manifold clauses, whatever the `HashSet`s do.**  For every choice
+    `iter` of the iteration orders inside the calls of `network_cut`: a D-set returned from a complete,
+    loopless 3-dimensional D-set whose far operations commute and differ is one again, and it has
+    fewer chambers.  Together with `simplify_step_preserves_manifold_clauses` every step of the loop
+    of `simplify` is covered (the local moves 1 and 2 in general position). -/
+theorem split_and_glue_preserves_manifold {ds s : DSetData} (hm : Manifold3 ds)
+    (iter : Nat → Bool → List Nat → List Nat)
+    (h : splitAndGlue (.dset ds) iter = .ok (some (.dset s))) : Manifold3 s ∧ s.size < ds.size :=
+  splitAndGlue_manifold hm iter h
+
+/-- Non-vacuity.  The smallest states on which the whole function fires are a 28-chamber lens-space
+    cover and 64-chamber states of the corpus pipelines (`Simp.splitAndGlue` evaluated by the native
+    driver returns a D-set there and agrees with the real code on every run: the `nt` cases of op
+    `split_and_glue`); the kernel needs minutes and 8-10 GB for them (`buildSet` on arrays), so the
+    example in this file is the last loop of the function on the small D-set `ex8`: with the one entry
+    (glue chamber 8, pair (8, 5)) in `cuts` it returns a smaller D-set. -/
+example : Manifold3 ex8 ∧
+    ∃ s, sgFirst ex8 [{ key := (-3, 1, 1), d := 8, ordered := [(8, 5)] }] = .ok (some (.dset s)) :=
+  ⟨manifold3B_sound (by decide +kernel), returnsDSet_exists (by decide +kernel)⟩
 
 /-! ### sphericity preservation: precise statements (open)
 
